@@ -245,8 +245,10 @@ def intersect_first_delim_colon(D):
         if c in (0x2F, 0x3F, 0x23):
             return None
         return 0
-    pts = sorted(D.breakpoints() | {0x23, 0x24, 0x2F, 0x30, 0x3A, 0x3B, 0x3F, 0x40})
-    pts = [p for p in pts if p <= D.maxsym]
+    pts = D.breakpoints() | {0x23, 0x24, 0x2F, 0x30, 0x3A, 0x3B, 0x3F, 0x40}
+    if D.maxsym > 255:
+        pts |= {0xD800, 0xE000}
+    pts = sorted(p for p in pts if p <= D.maxsym)
     ids = {}
     order = []
     trans = []
@@ -264,6 +266,8 @@ def intersect_first_delim_colon(D):
         row = []
         for k, lo in enumerate(pts):
             hi = (pts[k + 1] - 1) if k + 1 < len(pts) else D.maxsym
+            if 0xD800 <= lo <= 0xDFFF:
+                continue
             t = D.step(q, lo)
             s2 = sstep(s, lo)
             if t is None or s2 is None:
